@@ -106,19 +106,22 @@ def mkBody (content : Text) (c : Conn) : Body :=
   | none => ⟨content, c.ending, c.chunks, c.eager, false⟩
   | some k => ⟨content.take k, c.ending, c.chunks, c.eager, false⟩
 
+/-- how many bytes the next `Read` with `len(p) = m` may hand out -/
+def Body.cap (b : Body) (m : Nat) : Nat :=
+  match b.chunks with
+  | [] => m
+  | c :: _ => min (c + 1) m
+
 /-- `body.Read(p)` with `len(p) = m`.  *Assumption*: `Read` on a closed body fails with a non-EOF
 error (true for net/http's HTTP/1 and HTTP/2 bodies and for `*os.File`). -/
 def Body.read (b : Body) (m : Nat) : Body × Text × Res :=
   if b.closed then (b, [], .fault)
   else if b.rest.isEmpty then (b, [], b.ending.res)
   else
-    let cap := match b.chunks with
-      | [] => m
-      | c :: _ => min (c + 1) m
-    let out := b.rest.take cap
-    let rest' := b.rest.drop cap
-    let b' := { b with rest := rest', chunks := b.chunks.tail }
-    if rest'.isEmpty && b.eager && !out.isEmpty then (b', out, b.ending.res) else (b', out, .ok)
+    let out := b.rest.take (b.cap m)
+    let rest' := b.rest.drop (b.cap m)
+    ({ b with rest := rest', chunks := b.chunks.tail }, out,
+      if rest'.isEmpty && b.eager && !out.isEmpty then b.ending.res else .ok)
 
 /-! ## observable trace -/
 
@@ -266,8 +269,9 @@ structure St where
   lastBody : Option Res     -- class of the most recent body read since the last result
 deriving DecidableEq, Repr, Inhabited
 
-/-- one event against the property; `none` = violated -/
-def stepEvent (data : Text) (s : St) : Event → Option St
+/-- one event against the property; `none` = violated.  `strict = false` leaves out the one clause
+(`eof_complete`) that depends on the recorded truncation assumption. -/
+def stepEvent (data : Text) (strict : Bool) (s : St) : Event → Option St
   | .req range =>
     -- a request is a fresh download (no Range) before anything was consumed, and asks for exactly
     -- `bytes=consumed-` afterwards
@@ -277,22 +281,23 @@ def stepEvent (data : Text) (s : St) : Event → Option St
     -- the bytes handed out are exactly the next bytes the server holds (no duplicate, no gap) …
     if out.isPrefixOf (data.drop s.consumed)
       -- … a clean EOF only when everything was consumed …
-      && (res != .eof || s.consumed + out.length == data.length)
+      && (!strict || res != .eof || s.consumed + out.length == data.length)
       -- … and a failed last attempt is reported as an error
       && (!(s.lastBody == some .fault || s.lastBody == some .weof) || res.isErr)
     then some ⟨s.consumed + out.length, none⟩ else none
   | .close => some s
 
-def runFrom (data : Text) : St → List Event → Option St
+def runFrom (data : Text) (strict : Bool) : St → List Event → Option St
   | s, [] => some s
   | s, e :: es =>
-    match stepEvent data s e with
+    match stepEvent data strict s e with
     | none => none
-    | some s' => runFrom data s' es
+    | some s' => runFrom data strict s' es
 
 def init : St := ⟨0, none⟩
 
-def accepts (data : Text) (log : List Event) : Bool := (runFrom data init log).isSome
+def accepts (data : Text) (strict : Bool) (log : List Event) : Bool :=
+  (runFrom data strict init log).isSome
 
 /-- the callers' view: the status that lets them use the body (both test `!= http.StatusOK`);
 a 200 response without a body is only acceptable for an empty file -/
